@@ -44,7 +44,9 @@ def parse(abbr: str, config: Config):
 
     try:
         snippets(abbr, config)
-        walk(abbr, transform, config)
+        # BEM data of visited nodes must live for this abbreviation only
+        bem_lookup = {}
+        walk(abbr, lambda node, ancestors, state: transform(node, ancestors, state, bem_lookup), config)
     finally:
         config.user_config['text'] = text
     return abbr
@@ -56,7 +58,7 @@ def stringify(abbr: Abbreviation, config: Config):
     return formatter(abbr, config)
 
 
-def transform(node: AbbreviationNode, ancestors: list, config: Config):
+def transform(node: AbbreviationNode, ancestors: list, config: Config, bem_lookup: dict=None):
     "Modifies given node and prepares it for output"
     implicit_tag(node, ancestors, config)
     attributes(node, config)
@@ -69,4 +71,4 @@ def transform(node: AbbreviationNode, ancestors: list, config: Config):
         label(node)
 
     if config.options.get('bem.enabled'):
-        bem(node, ancestors, config)
+        bem(node, ancestors, config, bem_lookup)
